@@ -319,13 +319,18 @@ impl Ddl {
                 let mut t = Type::create();
                 // the name can only be set together with AS ENUM
                 if let (Some(n), true) = (n, *e) { t.as_enum(type_ref(n)); }
-                t.values(vs.iter().map(|v| Alias::new(v)));
+                // the labels in one batch or in two: values() appends
+                if vs.len() >= 2 && vs[0].len() % 2 == 1 { let k = vs.len() / 2; t.values(vs[..k].iter().map(|v| Alias::new(v))); t.values(vs[k..].iter().map(|v| Alias::new(v))); }
+                else { t.values(vs.iter().map(|v| Alias::new(v))); }
                 Real::Pg(PgReal::TC(t))
             }
             Ddl::TypeDrop(ns, ie, o) => {
                 let mut t = extension::postgres::Type::drop();
                 // several names: one call of names(), or name() per element (the same statement)
-                if ns.len() >= 2 && ns[0].len() % 2 == 1 { t.names(ns.iter().map(|n| type_ref(n))); } else { for n in ns { t.name(type_ref(n)); } }
+                // .. or name() for the first and names() for the rest: both append
+                if ns.len() >= 2 && ns[0].len() % 2 == 1 { t.names(ns.iter().map(|n| type_ref(n))); }
+                else if ns.len() >= 2 && ns[1].len() % 2 == 1 { t.name(type_ref(&ns[0])); t.names(ns[1..].iter().map(|n| type_ref(n))); }
+                else { for n in ns { t.name(type_ref(n)); } }
                 if *ie { t.if_exists(); }
                 match o { Some(0) => { t.cascade(); } Some(_) => { t.restrict(); } None => {} }
                 Real::Pg(PgReal::TD(t))
@@ -494,7 +499,12 @@ impl GenD {
         if self.b() == B::Postgres && self.r().chance(1, 8) { return self.pg_statement(); }
         match self.r().below(16) {
             0..=5 => Ddl::Create(self.create()),
-            6..=8 => { let n = if self.tame { if self.b() == B::Sqlite { 1 } else { 1 + self.r().below(3) } } else { self.r().below(4) }; Ddl::Alter(self.opt_tname(3), (0..n).map(|_| self.alter_opt()).collect()) }
+            6..=8 => { let n = if self.tame { if self.b() == B::Sqlite { 1 } else { 1 + self.r().below(3) } } else { self.r().below(4) };
+                let mut os: Vec<AOpt> = (0..n).map(|_| self.alter_opt()).collect();
+                // several foreign keys without a name, or with the same name, in one ALTER TABLE: each is its own action
+                if self.b() != B::Sqlite && self.r().chance(1, 6) { let same = if self.r().chance(1, 2) { None } else { Some(self.name()) };
+                    for _ in 0..2 { let mut f = self.fk(); f.name = same.clone(); let at = self.r().below(os.len() as u64 + 1) as usize; os.insert(at, AOpt::AddFk(f)); } }
+                Ddl::Alter(self.opt_tname(3), os) }
             9 => { let n = 1 + self.r().below(3) as usize; Ddl::Drop((0..n).map(|_| self.tname(3)).collect(), self.r().chance(1, 2), { let k = self.r().below(3); (0..k).map(|_| self.r().below(2) as u32).collect() }) }
             10 => { let a = self.tname(3); let b = self.tname(3); if !self.tame && self.r().chance(1, 10) { Ddl::Rename(None, None) } else { Ddl::Rename(Some(a), Some(b)) } }
             11 => Ddl::Truncate(self.opt_tname(3)),
@@ -532,11 +542,40 @@ pub fn run_stream(ctx: &mut crate::Ctx, backends: &[B], n: usize) {
         let r = catch(|| real.build(b));
         ctx.count(&format!("ddl.kind.{}", q.kind()));
         ctx.count(if r.is_some() { "ddl.render.ok" } else { "ddl.render.panic" });
-        if tame && r.is_none() && !(b == B::Sqlite && matches!(q, Ddl::Truncate(_) | Ddl::FkCreate(_) | Ddl::FkDrop(..))) { ctx.count("ddl.tame.panic"); }
+        if tame && r.is_none() && !(b == B::Sqlite && matches!(q, Ddl::Truncate(_) | Ddl::FkCreate(_) | Ddl::FkDrop(..))) {
+            ctx.count("ddl.tame.panic");
+            ctx.oracle_fail("a schema statement built only from what the backend supports cannot be rendered (the crate panics)", serde_json::json!({"backend": b.name(), "recipe": recipe}));
+        }
         let exp = match &r { Some(t) => format!("ok {}", hs(t)), None => "panic".into() };
         let sq = recipe.clone();
         ctx.case_norm(format!("ddl {} {}", b.name(), recipe), exp, true, &move || format!("{} {}", b.name(), sq), crate::c01::strip_flags(false));
         let Some(r) = r else { continue };
+        // ---- the elements that were declared are the elements the dialect's reference grammar reads, one for one (counted per kind:
+        // foreign keys / added / dropped / renamed columns of an ALTER TABLE, names of a DROP TYPE, labels of a CREATE TYPE)
+        if tame && b != B::Sqlite {
+            use crate::sqlparse::T;
+            fn count(t: &T, pred: &dyn Fn(&T) -> bool) -> usize { (if pred(t) { 1 } else { 0 }) + match t { T::N(_, c) => c.iter().map(|x| count(x, pred)).sum(), T::L(_) => 0 } }
+            let is_n = |k: &'static str| move |t: &T| matches!(t, T::N(x, _) if x == k);
+            let is_l = |p: &'static str| move |t: &T| matches!(t, T::L(x) if x.starts_with(p));
+            if let Ok(tree) = crate::c14::parse_ddl(b, &r) {
+                let mut want_got: Vec<(&str, usize, usize)> = Vec::new();
+                match &q {
+                    Ddl::Alter(_, os) => {
+                        want_got.push(("foreign keys added", os.iter().filter(|o| matches!(o, AOpt::AddFk(_))).count(), count(&tree, &is_n("foreign-key"))));
+                        want_got.push(("columns added", os.iter().filter(|o| matches!(o, AOpt::Add(..))).count(), count(&tree, &is_n("add-column")) + count(&tree, &is_n("add-column-if-not-exists"))));
+                        want_got.push(("columns dropped", os.iter().filter(|o| matches!(o, AOpt::DropC(_))).count(), count(&tree, &is_n("drop-column"))));
+                        want_got.push(("columns renamed", os.iter().filter(|o| matches!(o, AOpt::Rename(..))).count(), count(&tree, &is_n("rename-column"))));
+                    }
+                    Ddl::TypeDrop(ns, _, _) => want_got.push(("type names", ns.len(), count(&tree, &is_l("name:")))),
+                    Ddl::TypeCreate(Some(_), true, vs) => want_got.push(("labels", vs.len(), count(&tree, &is_l("label:")))),
+                    _ => {}
+                }
+                ctx.count("ddl.oracle.elements");
+                for (what, want, got) in want_got {
+                    if want != got { ctx.oracle_fail("the schema statement does not carry exactly the declared elements", serde_json::json!({"backend": b.name(), "recipe": recipe, "sql": r, "element": what, "declared": want, "read": got})); }
+                }
+            } else { ctx.count("ddl.oracle.elements.unparsed"); }
+        }
         // ---- independent oracles on the crate's text (reference lexer of the dialect, reference DDL grammar)
         let mut strings = recipe_strings(&recipe);
         // quoted parts of caller-supplied raw text, and the element type of an array cast, are given inside a longer string
